@@ -95,7 +95,13 @@ MkOptJoin(i) == LET kind == Pick({"inner", "inner", "lookup", "left"}) IN
              Sel(OptJFrom(kind, IF kind = "left" THEN Pick(OuterOns) ELSE Pick(Ons \cup {Bin("<", LK, RK)})), Pick(OptJWheres), Pick(OptJProjs), Pick(BOOLEAN), <<>>, -1)
 MkOptNested(i) == LET inner == Sel(Base, Pick(Wheres), Ident, FALSE, <<>>, -1) IN
                Sel([k |-> "sub", q |-> Sel([k |-> "sub", q |-> inner, as |-> "q"], Pick(Wheres), Ident, FALSE, <<>>, -1), as |-> "z"], Pick(Wheres), Pick(Projs), FALSE, <<>>, -1)
-MkOpt(i) == LET c == Pick(1..3) IN CASE c = 1 -> MkOptGroup(i) [] c = 2 -> MkOptJoin(i) [] c = 3 -> MkOptNested(i)
+(* (e) DISTINCT * in a subquery (no projection node between the DISTINCT and its source) whose outer query uses some of the columns only: every
+   column takes part in the DISTINCT, none may be pruned; also below a join *)
+DStar(n, as) == [k |-> Pick({"dstar", "dstar", "star"}), name |-> n, as |-> as]
+MkOptStar(i) == IF Pick(BOOLEAN) THEN Sel(DStar("t", "q"), Pick(Wheres), Pick(Projs), Pick(BOOLEAN), <<>>, -1)
+                ELSE Sel([k |-> "join", kind |-> Pick({"inner", "lookup"}), l |-> DStar("l", "l"), r |-> DStar("r", "r"), on |-> Pick(Ons)],
+                         Pick(JWheres), Pick(OptJProjs), Pick(BOOLEAN), <<>>, -1)
+MkOpt(i) == LET c == Pick(1..4) IN CASE c = 1 -> MkOptGroup(i) [] c = 2 -> MkOptJoin(i) [] c = 3 -> MkOptNested(i) [] c = 4 -> MkOptStar(i)
 
 (* ORDER BY + LIMIT inside a subquery over a grouping with a custom trigger (a retracting source): the pruning of the ORDER BY buffer must
    not lose rows that re-enter the top n later *)
